@@ -35,7 +35,7 @@ class C07(FragHarness, WrapHarness):
                     'gen': 'sym1x', 'n': 5 if q else 6, 'tokens': ()})
         for split in ('N', 'H'):
             out.append({'level': 'text', 'feat': 'full', 'algo': 'F', 'sep': 'A', 'split': split, 'bw': True, 'ind': 'none',
-                        'gen': 'words', 'nwords': 3 if q else 4, 'wl': 2, 'maxgap': 2 if (split == 'N' or not q) else 1})
+                        'gen': 'words', 'nwords': 3 if q else 4, 'wl': 2 if q else 1, 'maxgap': 2 if split == 'N' else 1})
         out.append({'level': 'text', 'feat': 'full', 'algo': 'F', 'sep': 'A', 'split': 'N', 'bw': True, 'ind': 'si', 'imax': 1,
                     'gen': 'words', 'nwords': 3, 'wl': 2, 'maxgap': 1})
         return out
